@@ -560,6 +560,15 @@ func (i *Interp) runFrame(fr *frame) {
 		}
 		tp, ok := r.(targetPanic)
 		if !ok {
+			if ef, isFault := r.(engineFault); isFault && !strings.Contains(ef.msg, " @ ") {
+				ef.msg += " @ " + fr.fn.String()
+				n := 0
+				for c := fr.caller; c != nil && n < 4; c = c.caller {
+					ef.msg += " <- " + c.fn.String()
+					n++
+				}
+				r = ef
+			}
 			panic(r) // engine-level unwinding (pathEnd, engineFault)
 		}
 		if tp.where == "" {
